@@ -384,8 +384,11 @@ def children(ex, prefix_len, bound):
     return out
 
 
-def dfs(make, roots, bound, on_exec, max_exec=None, **kw):
-    """Sequential DFS below each root prefix. on_exec(prefix, ex, outcome). Returns #executions."""
+def dfs(make, roots, bound, on_exec, max_exec=None, run=None, **kw):
+    """Sequential DFS below each root prefix. on_exec(prefix, ex, outcome). Returns #executions.
+    run: replacement for run_schedule with the same signature and result (e.g. one that executes the schedule in
+    another process / from another library state)."""
+    run_schedule = run or globals()["run_schedule"]
     stack = list(roots)
     n = 0
     while stack:
@@ -406,8 +409,9 @@ def dfs(make, roots, bound, on_exec, max_exec=None, **kw):
     return n, 0
 
 
-def explore(make, bound, judge, nproc=None, split_depth=2, max_exec_per_root=None, **kw):
+def explore(make, bound, judge, nproc=None, split_depth=2, max_exec_per_root=None, run=None, **kw):
     """Exhaustive exploration up to `bound` preemptions (None = unbounded).
+    run: replacement for run_schedule(make, prefix, **kw) -> (execution, outcome), see dfs().
 
     judge(ex, outcome) -> list of (key, what). Returns dict(executions, outcomes, violations,
     deadlocks, max_points, capped). The tree is split at `split_depth` levels of children and
@@ -426,6 +430,7 @@ def explore(make, bound, judge, nproc=None, split_depth=2, max_exec_per_root=Non
         for k, what in judge(ex, outcome):
             results["violations"].append((k, what, {"schedule": list(ex.choices), "threads": list(ex.thread_order)}))
 
+    run_schedule = run or globals()["run_schedule"]
     level = [()]
     for _ in range(split_depth):
         nxt = []
@@ -450,7 +455,7 @@ def explore(make, bound, judge, nproc=None, split_depth=2, max_exec_per_root=Non
                 for k, what in judge(ex, outcome):
                     local["violations"].append((k, what, {"schedule": list(ex.choices), "threads": list(ex.thread_order)}))
 
-        _n, left = dfs(make, [root], bound, rec, max_exec=max_exec_per_root, **kw)
+        _n, left = dfs(make, [root], bound, rec, max_exec=max_exec_per_root, run=run, **kw)
         local["capped"] = left
         return local
 
